@@ -12,10 +12,29 @@ package main
 import (
 	"fmt"
 	"go/ast"
+	"go/printer"
+	"go/token"
 	"go/types"
+	"os"
 	"sort"
 	"strings"
 )
+
+// debugDumpFuncs: VX_DUMP_FN="ansi.(*Parser).hook,ansi.escape" prints those functions as the rules see them
+// (after the global helper inlining). A debugging aid only.
+func debugDumpFuncs(c *Ctx) {
+	names := os.Getenv("VX_DUMP_FN")
+	if names == "" {
+		return
+	}
+	for _, n := range strings.Split(names, ",") {
+		if fi := c.P.Func(strings.TrimSpace(n)); fi != nil {
+			fmt.Fprintf(os.Stderr, "---- %s\n", n)
+			printer.Fprint(os.Stderr, token.NewFileSet(), fi.Decl)
+			fmt.Fprintln(os.Stderr)
+		}
+	}
+}
 
 const (
 	symEOF     = -1
@@ -323,6 +342,7 @@ type c02Trans struct {
 
 func runC02(c *Ctx) {
 	dropOrphanHelpers(c)
+	debugDumpFuncs(c)
 	c.Clauses = []string{
 		"C02.a transition table of the product automaton (state x control fields) equals the VT500 reference with documented extensions, exhaustive over reachable product states x 133 symbols",
 		"C02.b exit-handler typestate: handler installed on every edge into osc/dcs-passthrough/apc and run-then-cleared on every edge out",
